@@ -175,6 +175,9 @@ enum Sib {
     Ann(&'static str),
     /// SDG with this GID attribute
     Sdg(&'static str),
+    /// mixed-content element (L-4 / L-2) with attribute L and this content: (true, t) = sub-element E holding the text t,
+    /// (false, t) = the character data t
+    Mix(&'static str, &'static str, Vec<(bool, &'static str)>),
 }
 
 /// identifies the sibling up to the stored order of its reorderable content (the multiset a group is made of)
@@ -366,6 +369,19 @@ fn build_sib(b: &mut B, c: usize, k: usize, s: &Sib) {
             let a = b.at("GID");
             b.op(Op::SetAttr(e, a, Val::S(gid.as_bytes().to_vec())));
         }
+        Sib::Mix(kind, lang, items) => {
+            let e = b.sub(c, kind);
+            let (a, v) = (b.at("L"), b.en(lang));
+            b.op(Op::SetAttr(e, a, Val::E(v)));
+            for (i, (is_elem, t)) in items.iter().enumerate() {
+                if *is_elem {
+                    let x = b.sub(e, "E");
+                    b.op(Op::InsertCItem(x, t.as_bytes().to_vec(), 0));
+                } else {
+                    b.op(Op::InsertCItem(e, t.as_bytes().to_vec(), i));
+                }
+            }
+        }
         Sib::Lenient(_) => panic!("lenient siblings are loaded, not built"),
         Sib::Inline(kind) => {
             let e = b.sub(c, kind);
@@ -443,6 +459,14 @@ fn build_container(b: &mut B, fam: &str) -> usize {
             // the public sort is called on the ordered container itself
             b.sort_at = Some(args);
             b.sub(a, "ANNOTATIONS")
+        }
+        // siblings with MIXED content that differs in kind (text / sub-element) at the first differing position
+        "mixkind-l4" | "mixkind-l2" => {
+            let pk = b.packages();
+            let p = b.named(pk, "AR-PACKAGE", "p");
+            let c = b.sub(p, if fam == "mixkind-l4" { "LONG-NAME" } else { "DESC" });
+            assert!(sortable(&b.ex.handles[c]), "the container of the mixed-content siblings is not reorderable");
+            c
         }
         "mixed" => {
             let pk = b.packages();
@@ -543,6 +567,15 @@ fn families(tier: &str) -> Vec<(&'static str, Vec<Vec<Sib>>)> {
             vec![Ann("b"), Ann("a")],
             vec![Ann("c"), Ann("a"), Ann("b")],
             vec![Ann("a2"), Ann("a10"), Ann("a")],
+        ]));
+    }
+    for (fam, kind) in [("mixkind-l4", "L-4"), ("mixkind-l2", "L-2")] {
+        v.push((fam, vec![
+            vec![Mix(kind, "EN", vec![(false, "plain "), (true, "bold")]), Mix(kind, "DE", vec![(true, "fett"), (false, " normal")])],
+            vec![Mix(kind, "EN", vec![(false, "a"), (true, "x")]), Mix(kind, "DE", vec![(true, "x"), (false, "a")]), Mix(kind, "FR", vec![(true, "x"), (true, "y")])],
+            vec![Mix(kind, "EN", vec![(true, "x"), (false, "b")]), Mix(kind, "DE", vec![(true, "x"), (true, "b")]), Mix(kind, "FR", vec![(true, "x")])],
+            // the same language on both: nothing but the kind of the first content item differs
+            vec![Mix(kind, "EN", vec![(false, "t"), (true, "t")]), Mix(kind, "EN", vec![(true, "t"), (false, "t")])],
         ]));
     }
     v.push(("below-sdg", vec![
